@@ -38,6 +38,16 @@ pub open spec fn den<T: PartialOrd>(i: Interval<T>, x: T) -> bool {
         Interval::LowerOneSided(h) => le(x, h),
     }
 }
+// Interval::new: the two-sided interval when low <= high, InvalidBounds otherwise (incomparable bounds included)
+pub open spec fn new_spec<T: PartialOrd>(low: T, high: T) -> Result<Interval<T>, IntervalError> {
+    if le(low, high) { Ok(Interval::TwoSided(low, high)) } else { Err(IntervalError::InvalidBounds) }
+}
+pub open spec fn inf_opt<T: PartialOrd>(i: Interval<T>) -> Option<T> {
+    match i { Interval::TwoSided(l, _) => Some(l), Interval::UpperOneSided(l) => Some(l), Interval::LowerOneSided(_) => None }
+}
+pub open spec fn sup_opt<T: PartialOrd>(i: Interval<T>) -> Option<T> {
+    match i { Interval::TwoSided(_, h) => Some(h), Interval::LowerOneSided(h) => Some(h), Interval::UpperOneSided(_) => None }
+}
 pub open spec fn wf<T: PartialOrd>(i: Interval<T>) -> bool {
     match i {
         Interval::TwoSided(l, h) => le(l, h),
